@@ -96,6 +96,20 @@ func newC11Shared() *c11Shared {
 			sh.formats = append(sh.formats, s.Truth.Format)
 		}
 	}
+	// a PNG whose iCCP stream is damaged (an error path that returns pooled objects must not poison later loads)
+	for _, dmg := range []string{"truncated", "bad-adler"} {
+		s := pngSpecFor(33, 44, 6, 8, 0, core.NewRNG(1, "c11dmg"))
+		stream := imggen.Deflate(bytes.Repeat([]byte("profile "), 200), 6)
+		if dmg == "truncated" {
+			stream = stream[:len(stream)/2]
+		} else {
+			stream[len(stream)-1] ^= 0x55
+		}
+		s.ICC = &imggen.PNGICC{Name: "d", Profile: nil, RawStream: stream, State: "damaged"}
+		b, _ := s.Build()
+		sh.files = append(sh.files, b)
+		sh.formats = append(sh.formats, "PNG")
+	}
 	rng := core.NewRNG(1, "c11shared")
 	sh.profiles = [][]byte{structuredProfile(rng, 0), structuredProfile(rng, 4)}
 	sh.srcImg = image.NewNRGBA(image.Rect(0, 0, 19, 13))
